@@ -84,7 +84,10 @@ SPEC = dict(
         "by C10_revcomp_to_freq_reassociation and C10_revcomp_scores_sum_reversed — so equality holds only up to "
         "rounding (checked with the stated tolerances, and bit-exactly against the binary32 model); for the mirrored "
         "scores the size of the difference is proved (C10_revcomp_mirrors_scores_f32: <= 2((1+u)^(M-1)-1)*sum|cells|, "
-        "below the checker's M*2^-23*sum|cells| for M <= 4096 rows, both scores finite); for count -> frequency it is not",
+        "below the checker's M*2^-23*sum|cells| for M <= 4096 rows, both scores finite) and so is the count -> frequency one "
+        "(C10_revcomp_commutes_to_freq_f32: the two routes agree within 1e-6 relative cell by cell, for nonnegative finite "
+        "cells, finite positive row sums and quotients that are zero or normal numbers; the driver skips the "
+        "commutation checks when a frequency cell is subnormal)",
         "flog2 (libm log2f) is a Section variable; commutation with to_scoring holds for any flog2",
         "the sequence is reverse-complemented outside the library (no such function exists in lightmotif)",
     ],
